@@ -160,6 +160,27 @@ CHECKS["C19"] = dict(
          "output into returned reply vs queued jobs is correspondence-checked; real thread timing not modelled (scripted schedules).",
     design_ref="DESIGN.md §6 C19")
 
+CHECKS["C03"] = dict(
+    technique="Lean 4 proof: validate <-> SpecHeader /\\ SpecRule for all Int headers and all payload strings over tables regenerated from /repo and kernel-checked equal to a frozen reference spec; rule-class semantics, monotonicity, totality; exhaustive header-space correspondence against the real Message.validate; independent JSON-spec oracle",
+    text="tables_eq_spec (decide +kernel per version), header_iff, rule_semantics (+ per-class clauses), monotone, total_rules, "
+         "validate_iff. The translator output is re-proved equal to spec/serial_api.json on every run, so a dropped row, a shifted "
+         "range or a changed validator is a broken obligation; the harness then finds the concrete line with the spec oracle.",
+    note="Trusted: Lean kernel; tools/gen_tables.py + tools/gen_spec.py (both covered by the correspondence); voluptuous "
+         "accept/reject, CPython int()/float() (float ranges as exact rationals with half-ulp thresholds) and awesomeversion on "
+         "dotted-numeric / container-word / digit-free strings are modelled and sampled; spec/serial_api.json is a reviewed "
+         "snapshot of the same source, not a second source.",
+    design_ref="DESIGN.md §6 C03")
+CHECKS["C18"] = dict(
+    technique="Lean 4 proof: floor selection for all naturals major.minor[.patch] via section-wise comparison lemmas; keyword-threading model of the six constructor chains decided over all option subsets; real constructions of every subset and the version grid",
+    text="floor / floor_unique: selectConst of a rendered version is the greatest supported version not above it (1.4 when none); "
+         "rejected_falls_back, nonnumeric_falls_back; options: for each class and every sub-list of documented keywords no key "
+         "reaches Gateway.__init__ unconsumed and each lands on the documented attribute. The chain model is checked against "
+         "__mro__, signatures and real constructions (2^7 per class quick, up to 2^13 thorough); README constructor examples "
+         "are evaluated.",
+    note="Trusted: Lean kernel; Model/Version.lean (awesomeversion 24.6 on the numeric grammar; container words accepted and "
+         "select 2.2; SemVer pre-releases / hex unjudged), Model/Options.lean (keyword-set threading), both sampled.",
+    design_ref="DESIGN.md §6 C18")
+
 NOT_YET = {
 }
 
